@@ -31,15 +31,18 @@ def reprFloat (v : FloatV) : Str := (pyFloatRepr v).map floatTr
 
 def lowerAscii (c : Char) : Char := if 'A' ≤ c && c ≤ 'Z' then Char.ofNat (c.toNat + 32) else c
 
+/-- optional leading sign: (is negative, rest) -/
+def splitSign (t : Str) : Bool × Str :=
+  match t with
+  | '-' :: r => (true, r)
+  | '+' :: r => (false, r)
+  | r => (false, r)
+
 /-- the non-numeric branch of `float(s)` (`_Py_parse_inf_or_nan` after stripping white space): optional sign, then
     `inf` / `infinity` / `nan` in any letter case.  `none` = "not a special literal" (then `float()` either parses a
     number — not modelled — or raises). -/
 def parseFloatSpecial (s : Str) : Option FloatV :=
-  let t := strip s
-  let nb : Bool × Str := match t with
-    | '-' :: r => (true, r)
-    | '+' :: r => (false, r)
-    | r => (false, r)
+  let nb := splitSign (strip s)
   let l := nb.2.map lowerAscii
   if l = ['i', 'n', 'f'] || l = ['i', 'n', 'f', 'i', 'n', 'i', 't', 'y'] then some (if nb.1 then .ninf else .inf)
   else if l = ['n', 'a', 'n'] then some .nan
@@ -139,11 +142,7 @@ def parseExp (s : Str) : Option Int :=
     `[-+]? ( (?=\d|\.\d) \d* (\. \d*)? (E [-+]?\d+)? | Inf(inity)? | s?NaN \d* )`, case-insensitive.
     `none` = InvalidOperation → ValueError. (Exponent limits of libmpdec are not modelled.) -/
 def parseDec (s : Str) : Option DecR :=
-  let t := (stripU s).filter (· ≠ '_')
-  let nb : Bool × Str := match t with
-    | '-' :: r => (true, r)
-    | '+' :: r => (false, r)
-    | r => (false, r)
+  let nb := splitSign ((stripU s).filter (· ≠ '_'))
   let l := nb.2.map lowerAscii
   if l = ['i', 'n', 'f'] || l = ['i', 'n', 'f', 'i', 'n', 'i', 't', 'y'] then some (.inf nb.1)
   else match l with
